@@ -52,7 +52,7 @@ def strip_constraints(xml):
 
 def add_far_plane(xml):
   """family K: geoms collide with a plane 4 units below only (contact slots exist, all strictly inactive)."""
-  xml = xml.replace(' contype="0" conaffinity="0"', ' contype="2" conaffinity="0"')
+  xml = xml.replace(' contype="0" conaffinity="0"', ' contype="2" conaffinity="0"', 1)    # one geom is enough
   return xml.replace('<worldbody>', '<worldbody><geom name="farplane" type="plane" size="5 5 .1" pos="0 0 -4" '
                      'contype="0" conaffinity="2"/>', 1)
 
@@ -62,13 +62,14 @@ def smooth_models(draw):
   fam = draw(st.sampled_from(['S', 'K']))
   okw = dict(flags=False, fluid=(fam == 'S'), integrators=('Euler', 'Euler', 'implicitfast', 'RK4'),
              iterations=(60 if fam == 'S' else 1), cones=('pyramidal', 'elliptic') if (fam == 'K' and FINDINGS) else ('pyramidal',))
-  gm = draw(gx.models(max_bodies=3, family='A', contacts=False, sensors=False, mocap=False, plane=False,
+  gm = draw(gx.models(max_bodies=2, family='A', contacts=False, sensors=False, mocap=False, plane=False,
                       equalities=(fam == 'K'), opt_kwargs=okw, spread=0.5))
   if fam == 'S':
     gm.xml = strip_constraints(gm.xml)
   else:
+    # one Newton iteration with a *converged* line search (50 iterations, ls_tolerance 1e-9): a truncated line search
+    # makes the solver output a discontinuous function of its inputs (observed: jumps of 1e2 in qvel' over 2e-6)
     gm.xml = add_far_plane(gm.xml)
-    gm.xml = gm.xml.replace('ls_iterations="50"', 'ls_iterations="6"')
   gm.info['labels'] = sorted(set(gm.info['labels']) | {'family:' + fam})
   gm.info['family'] = fam
   return gm
